@@ -7,6 +7,8 @@
 (*   Sizes: N, mod, tmp = list of <<op, nrows, ncols, a_size, res_size,     *)
 (*          bytes reported by the *_tmp_bytes function>>, bytes = list of   *)
 (*          <<kind, size, nrows, ncols, bytes reported by bytes_of_*>>      *)
+(*   Scope: what, N, held (bytes in use while the object exists), leak      *)
+(*          (bytes still in use after its delete)                           *)
 EXTENDS Extents, TLC, Json, IOUtils, SequencesExt
 
 Tr == ndJsonDeserialize(IOEnv.TRACE)
@@ -16,7 +18,9 @@ StepOk(ev) == \A i \in 1 .. Len(ev.objs) : ev.objs[i][3] => ev.objs[i][2] \in Wr
 SizesOk(ev) ==
   /\ \A i \in 1 .. Len(ev.tmp) : LET t == ev.tmp[i] IN t[6] = TmpBytes(t[1], ev.N, t[2], t[3], t[4], t[5], ev.mod)
   /\ \A i \in 1 .. Len(ev.bytes) : LET t == ev.bytes[i] IN t[5] = BytesOf(t[1], ev.N, t[2], t[3], t[4], ev.mod)
-EventOk(ev) == CASE ev.e = "Step" -> StepOk(ev) [] ev.e = "Sizes" -> SizesOk(ev) [] OTHER -> FALSE
+\* an allocation scope new_* ... delete_*: memory is held while the object lives and all of it is returned
+ScopeOk(ev) == ev.held > 0 /\ ev.leak = 0
+EventOk(ev) == CASE ev.e = "Step" -> StepOk(ev) [] ev.e = "Sizes" -> SizesOk(ev) [] ev.e = "Scope" -> ScopeOk(ev) [] OTHER -> FALSE
 
 Init == l = 1 /\ bad = {}
 Next == l <= Len(Tr) /\ l' = l + 1 /\ bad' = IF EventOk(Tr[l]) THEN bad ELSE bad \cup {l}
